@@ -83,6 +83,15 @@ CHECKS = {
    technique="black-box monitor: connections from chosen loopback source addresses to real servers (TCP, TLS, TLS+authz; Rust API and C ABI) judged by an independent matcher; three-valued oracle over enumerated wildcard strings",
    text="Filters: any, exact v4/v6, sets of 1-5 mixed addresses, wildcards with literal/'*' fields on a boundary lattice; sources 127.a.b.c and ::1. Served = sentinel reply / completed handshake and Modbus reply through an independent TLS peer; refused = EOF before any byte. Parser: every string over a 12-symbol alphabet up to length 5 (quick) / 7 (thorough) plus grammar-generated strings.",
    note="The C-ABI variants (rodbus_server_create_tcp/_tls/_tls_with_authz, rodbus_address_filter_*) run in the ffi engine as part of this check. '+1' and leading zeros in a field are don't-care."),
+
+ "C18": dict(engine="ffi", cat="exploration", design="3/C18",
+   technique="differential runtime monitor: the same scenario through the extern C surface and through the Rust API, outcomes mapped through an independent name table; callback-lifecycle counters (completion exactly once, on_destroy exactly once); AddressSanitizer / Miri legs in the thorough tier",
+   text="All eight client operations x outcomes (genuine, 9 standard + all 256 raw exception codes, bad response, bad framing, close, silence, no listener, queue full, handle destroyed, runtime destroyed) against a scripted loopback peer; request bytes vs the reference encoder; measured timeouts; a C write handler answering success / each standard exception / raw codes for all four write functions observed by a raw client; 36 decode levels through both APIs with the C logger installed; client and port state listeners.",
+   note="The harness is Rust linking the rodbus-ffi rlib and calling only generated extern \"C\" functions with extern \"C\" callbacks (no C compiler involved). Completion callbacks for calls rejected for a parameter error before queueing are don't-care; on_destroy is not."),
+ "C19": dict(engine="ffi", cat="exploration", design="3/C19",
+   technique="model comparison (HashMap reference) of every rodbus_database_* return value and of raw-socket reads; torn-read detector under multi-thread stress with injected yields inside the transaction callback, overlap counter",
+   text="Random add/update/delete/get sequences over four point types and six indices inside configure and transaction callbacks, interleaved with wire reads (exception 02 when a point is absent); stress with 3 writer threads setting 50 registers to one fresh value per transaction and 6 raw clients reading all 50 in one request, counting reads that overlapped an open transaction.",
+   note="Overlap is under-estimated by sampling a counter before/after each read; a run with too few overlaps is inconclusive."),
 }
 
 NOT_YET = {
